@@ -144,13 +144,13 @@ theorem prov_parseLeafBooleanExpression (I : List Tok) (env : Env) (sn : String)
 /-! ### boolean expressions -/
 
 /-- Operand tokens of all leaves of a condition stand at input positions. -/
-def CondOK (I : List Tok) (c : BoolExpr) : Prop := AllPos I (C16b.condToks c)
+def CondOK (I : List Tok) (c : BoolExpr) : Prop := AllPos I (C16nd.condToks c)
 
 theorem CondOK_leaf (I : List Tok) (e : OpExpr) : CondOK I (.leaf e) ↔ Pos I e.operand := by
-  simp only [CondOK, C16b.condToks, AllPos_cons, AllPos_nil, and_true]
+  simp only [CondOK, C16nd.condToks, AllPos_cons, AllPos_nil, and_true]
 theorem CondOK_bin (I : List Tok) (l r : BoolExpr) (op : TT) :
     CondOK I (.bin l op r) ↔ CondOK I l ∧ CondOK I r := by
-  simp only [CondOK, C16b.condToks, AllPos_append]
+  simp only [CondOK, C16nd.condToks, AllPos_append]
 
 theorem prov_boolBlock (I : List Tok) (env : Env) (sn : String) : ∀ n : Nat,
     (∀ single negated, Prov I (parseBooleanExpression env sn single negated n)
